@@ -30,6 +30,26 @@ def run(tier, rep):
         traces = fusionpipe.replay_many(hists)
         full_src = hists[::(40 if q else 8)]
         traces += fusionpipe.replay_many(full_src, full=True)
+        # whole compilations of the metrics-mode cascades of the C11/C14 corpus (shared memories, per-Einsum or shared compute units)
+        import random
+        import re
+        import json
+        import execpipe
+        import hwfamily
+        rngc = random.Random(seed() + 13)
+        ncasc = 0
+        for _ in range(40 if q else 400):
+            sp = hwfamily.gen_hw_cascade(rngc)
+            try:
+                text = execpipe.compile_text(sp["yaml"], hw=True)
+            except Exception:
+                continue
+            m = re.search(r'^metrics\["blocks"\] = (\[.*\])$', text, re.M)
+            blocks = [[sp["outs"].index(e) + 1 for e in b] for b in json.loads(m.group(1))]
+            traces.append({"kind": "final", "events": [dict(d, blocks=[]) for d in sp["fusion_descs"]], "blocks": blocks})
+            full_src.append(sp["fusion_descs"])
+            ncasc += 1
+        rep.cov["whole_compilations_of_generated_cascades"] = ncasc
         src = hists + full_src
         keep = [(t, h) for t, h in zip(traces, src) if t["kind"] != "rejected"]
         rep.cov["rejected_by_compiler"] = len(traces) - len(keep)
